@@ -75,7 +75,8 @@ def plans(tier):
          ("leafvarf10", "1.0", "LeafVarF", var + ["f"], ["1.0"]),
          ("leafvarf11", "1.1", "LeafVarF", var + ["f"], ["1.1"]),
          ("mid3", "1.0", "Mid3", ab, ["1.0", "1.1"]),
-         ("multihead11", "1.1", "MultiHead", ["b", "p", "q", "r"], ["1.1"])]
+         ("multihead11", "1.1", "MultiHead", ["b", "p", "q", "r"], ["1.1"]),
+         ("wildpair11", "1.1", "WildPair", ["a", "o", "u", "z"], ["1.1"])]
     if tier == "thorough":
         p.append(("depth2", "1.0", "Depth2", ab, ["1.0", "1.1"]))
     return p
@@ -113,7 +114,7 @@ def run(ctx: Ctx, collect=None):
     ctx.exhaustive = True
     ctx.extra["per_scope"] = per_scope
     ctx.rule = ("every content model of the families of spec/ContentModel.tla (Depth1, Depth2Q, "
-                "Typed, AllQ, LeafVar, LeafVarF, Mid3, MultiHead (1.1: two substitution heads sharing a member); thorough adds Depth2) x schema class; a case is one strict "
+                "Typed, AllQ, LeafVar, LeafVarF, Mid3, MultiHead (1.1: two substitution heads sharing a member), WildPair (1.1: namespace lists and notNamespace negations side by side, a third namespace no constraint names); thorough adds Depth2) x schema class; a case is one strict "
                 "build judged against the spec's UPA/EDC verdict")
     ctx.assumptions += [
         "UPA is decided on the configuration-set machine (all reachable residual sets) and "
@@ -123,7 +124,7 @@ def run(ctx: Ctx, collect=None):
 
 def replay(ctx: Ctx, case):
     m = case["model"]
-    syms = ["a", "b", "c", "m", "o", "f", "p", "q", "r"]
+    syms = ["a", "b", "c", "m", "o", "f", "p", "q", "r", "u", "z"]
     cls = det_universe(ctx, case["ver"], None, syms, "replay", [m])
     for ver, direction, detail in judge((m, cls[cm.mkey(m)], [case["ver"]])):
         ctx.report(dict(case, observed=detail), f"{ver}: {cm.model_str(m)}: {detail}")
